@@ -15,6 +15,8 @@ SInit == Init /\ hist = <<>>
 
 CallJson(r, c) ==
                [ev      |-> "Call",
+                dgate   |-> TRUE,
+                sgate   |-> FALSE,
                 rid     |-> r,
                 op      |-> c.op,
                 slot    |-> c.slot,
